@@ -37,6 +37,64 @@ fn(U + "filter_pseudo_headers", params={"headers": "hdrs"}, returns="hdrs", modi
 fn(U + "build_and_validate_headers", params={"headers": "anyhdr"}, returns="hdrs", modifies=[], effect="atomic",
    raises={"Exception": None},
    loops={0: {"locals": {"name": "anyhdr", "value": "anyhdr", "validated_headers": "hdrs"},
-              "invariant": [("C12.headers.loop", "no_ctl_chars(validated_headers)", "C12")]}},
-   ensures=[("C12.headers.no-ctl", "no_ctl_chars(result)", "C12")],
+              "invariant": [("C12.headers.loop", "no_ctl_chars(validated_headers)", "C12"),
+                            ("C12.headers.loop.no-pseudo", "no_pseudo_names(validated_headers)", "C12")]}},
+   ensures=[("C12.headers.no-ctl", "no_ctl_chars(result)", "C12"),
+            # pseudo-headers supplied by the application never get through (a name that starts with ':')
+            ("C12.headers.no-pseudo", "no_pseudo_names(result)", "C12")],
    props=("C12",))
+
+
+# C01 "exactly one application instance is started": with server_names configured the request is
+# served iff its Host header -- the first header line whose name is "host" in any letter case, as
+# raw header names keep the client's spelling -- names one of them (an undecodable value names none)
+def _vsn_args(rng):
+    from hypercorn.config import Config
+    from hypercorn.protocol.events import Request
+
+    pool = ["a.example", "b.example", "", "caf\u00e9"]
+    cfg = Config()
+    cfg.server_names = [rng.choice(pool) for _ in range(rng.choice([0, 1, 1, 2]))]
+    hs = []
+    for _ in range(rng.choice([0, 1, 2, 3])):
+        nm = rng.choice([b"host", b"Host", b"HOST", b"x-host", b"accept"])
+        vl = rng.choice([p.encode() for p in pool] + [b"\xff"])
+        hs.append((nm, vl))
+    return {"config": cfg, "request": Request(stream_id=1, headers=hs, http_version="1.1", method="GET", raw_path=b"/", state={})}
+
+
+def _vsn_oracle(args, result, exc=None):
+    """no server names: served; else served iff the value of the first header named host (any
+    letter case) decodes to one of them ('' when there is no such header)"""
+    if exc is not None:
+        return False  # the function never raises
+    names = args["config"].server_names
+    if len(names) == 0:
+        return result is True
+    host = ""
+    for n, v in args["request"].headers:
+        if n.lower() == b"host":
+            try:
+                host = v.decode()
+            except UnicodeDecodeError:
+                return result is False
+            break
+    return result == (host in names)
+
+
+NOHOST_BEFORE = "forall_int('i', implies(0 <= i and i < %s, request.headers[i][0].lower() != b'host'))"
+fn(U + "valid_server_name", params={"config": "obj hypercorn.config:Config", "request": "obj hypercorn.protocol.events:Request"}, returns="bool", modifies=[], effect="atomic",
+   # used only when the function leaves the verifier's subset (bounded native search, labelled)
+   model_opts={"native_args": _vsn_args, "native_oracle": _vsn_oracle, "native_oracle_name": "C01.server-name.spec"},
+   loops={0: {"locals": {"name": "bstr", "value": "bstr", "host": "str"},
+              "invariant": [("C01.server-name.scan", "host == '' and " + NOHOST_BEFORE % "_i", "C01")]}},
+   # (quantifiers only in positive positions: the encoder eliminates them by skolemisation /
+   # instantiation and does not track polarity)
+   ensures=[
+       ("C01.server-name.spec",
+        "(len(config.server_names) == 0 and result) "
+        "or (len(config.server_names) > 0 and " + NOHOST_BEFORE % "len(request.headers)" + " and result == ('' in config.server_names)) "
+        "or (len(config.server_names) > 0 and exists_int('j', 0 <= j and j < len(request.headers) and request.headers[j][0].lower() == b'host' and " + NOHOST_BEFORE % "j"
+        + " and (not is_ascii(request.headers[j][1]) or result == (request.headers[j][1].decode() in config.server_names))))", "C01"),
+   ],
+   props=("C01", "C04"))
